@@ -9,7 +9,7 @@ use vcore::fault::{self, Resp, Scripted};
 use vcore::gen::{self, StreamCfg};
 use vcore::rt::{self, digest_str, esc, Acc, Args, Report};
 
-const RULE: &str = "A case is a history: (input, inner-writer script, driver, stream kind). Exhaustive: every input of 1..2 (thorough 3) symbols over an escape-rich symbol alphabet x every script of depth <= 3 (thorough 4) over {Accept 0,1,2,3, All, Interrupted, WouldBlock, Other} x drivers {write loop, write_vectored loop, write_all whole / in chunks, write! with several fragments and literals, write! with a failing Display} x {StripStream<Box<dyn Write>>, AutoStream::never(Box<dyn Write>)}. Random: long grammar streams x random scripts up to 40 responses. Oracle after every call: count <= buffer length; bytes accepted by the inner writer == strip(input[..consumed]); an Err carries the kind the inner writer returned in that call; Ok(0) only when the inner writer refused; at the end of a protocol-following write loop the inner writer holds exactly strip(input); write_all/write! return Ok only if everything was delivered and Err with the injected kind (WriteZero for a zero-length accept) otherwise. Non-trivial = the script produced at least one short count or error while visible bytes were pending (distinct by history).";
+const RULE: &str = "A case is a history: (input, inner-writer script, driver, stream kind). Exhaustive: every input of 1..2 (thorough 3) symbols over an escape-rich symbol alphabet x every script of depth <= 3 (thorough 4) over {Accept 0,1,2,3, All, Interrupted, WouldBlock, Other} x drivers {write loop, write_vectored loop, write_all whole / in chunks, write! with several fragments and literals, write! with a failing Display, write! with a Display that keeps writing after a failed fragment} x {StripStream<Box<dyn Write>>, AutoStream::never(Box<dyn Write>)}. Random: long grammar streams x random scripts up to 40 responses. Oracle after every call: count <= buffer length; bytes accepted by the inner writer == strip(input[..consumed]); an Err carries the kind the inner writer returned in that call; Ok(0) only when the inner writer refused; at the end of a protocol-following write loop the inner writer holds exactly strip(input); write_all/write! return Ok only if everything was delivered and Err with the injected kind (WriteZero for a zero-length accept) otherwise. Non-trivial = the script produced at least one short count or error while visible bytes were pending (distinct by history).";
 
 #[derive(Clone, Copy, Debug, PartialEq, Eq, Serialize, Deserialize)]
 enum Driver {
@@ -19,6 +19,9 @@ enum Driver {
     Fmt,
     FmtLiteral,
     FmtFailing,
+    /// a Display that keeps writing its remaining fragments after one of them failed
+    /// and returns the first error afterwards
+    FmtSloppy,
 }
 
 #[derive(Clone, Debug, Serialize, Deserialize)]
@@ -54,6 +57,16 @@ impl std::fmt::Display for Failing<'_> {
     fn fmt(&self, f: &mut std::fmt::Formatter<'_>) -> std::fmt::Result {
         f.write_str(self.0)?;
         Err(std::fmt::Error)
+    }
+}
+
+struct Sloppy<'a>(&'a str, &'a str, &'a str);
+impl std::fmt::Display for Sloppy<'_> {
+    fn fmt(&self, f: &mut std::fmt::Formatter<'_>) -> std::fmt::Result {
+        let r1 = f.write_str(self.0);
+        let r2 = f.write_str(self.1);
+        let r3 = f.write_str(self.2);
+        r1.and(r2).and(r3)
     }
 }
 
@@ -190,7 +203,7 @@ fn check_history(input: &[u8], h: &Hist) -> Result<bool, String> {
                 }
             }
         }
-        Driver::Fmt | Driver::FmtLiteral | Driver::FmtFailing => {
+        Driver::Fmt | Driver::FmtLiteral | Driver::FmtFailing | Driver::FmtSloppy => {
             let text = std::str::from_utf8(input).map_err(|_| "fmt driver needs UTF-8 input (harness bug)".to_owned())?;
             let (a, b, cc) = split3(text, h.param);
             let calls_before = 0;
@@ -201,6 +214,7 @@ fn check_history(input: &[u8], h: &Hist) -> Result<bool, String> {
                     format!("{a}\x1b[1mX\x1b[0m{b}<{cc}"),
                     false,
                 ),
+                Driver::FmtSloppy => (write!(s, "{}", Sloppy(a, b, cc)), text.to_owned(), false),
                 _ => (write!(s, "{}{}{}", a, Failing(b), cc), format!("{a}{b}"), true),
             };
             let full = strip_bytes_vec(effective.as_bytes());
@@ -227,10 +241,15 @@ fn check_history(input: &[u8], h: &Hist) -> Result<bool, String> {
                         None if display_failed => Some(ErrorKind::Other),
                         None => None,
                     };
-                    if expected != Some(kind) {
+                    let any_hard_kind = hard.iter().any(|f| match f {
+                        Err(k) => *k == kind,
+                        Ok(_) => kind == ErrorKind::WriteZero,
+                    });
+                    let ok_kind = if h.driver == Driver::FmtSloppy { any_hard_kind } else { expected == Some(kind) };
+                    if !ok_kind {
                         return Err(ctx(format!("write! returned Err({kind:?}), the inner writer answered {:?} (display failed: {display_failed})", faults)));
                     }
-                    if !prefix_of(&d, &full) {
+                    if h.driver != Driver::FmtSloppy && !prefix_of(&d, &full) {
                         return Err(ctx(format!("after a failed write! the inner writer holds {} which is not a prefix of {}", esc(&d), esc(&full))));
                     }
                 }
@@ -276,6 +295,8 @@ fn drivers_for(input: &[u8]) -> Vec<(Driver, u64, bool)> {
         v.push((Driver::Fmt, 7, true));
         v.push((Driver::FmtLiteral, 2, false));
         v.push((Driver::FmtFailing, 5, false));
+        v.push((Driver::FmtSloppy, 3, false));
+        v.push((Driver::FmtSloppy, 11, true));
     }
     v
 }
@@ -332,7 +353,7 @@ fn run(args: &Args, rep: &mut Report) {
     rep.add(
         "exhaustive-scripts",
         true,
-        &format!("{} inputs x {} scripts (all of depth <= {}) x up to 11 driver configurations", inputs.len(), scripts.len(), tier.pick(3, 4)),
+        &format!("{} inputs x {} scripts (all of depth <= {}) x up to 13 driver configurations", inputs.len(), scripts.len(), tier.pick(3, 4)),
         accs,
     );
 
@@ -357,7 +378,7 @@ fn run(args: &Args, rep: &mut Report) {
                 gen::stream(cfg),
                 proptest::collection::vec(fault::resp_strategy(), 0..40),
                 if utf8 {
-                    prop_oneof![Just(Driver::Fmt), Just(Driver::FmtLiteral), Just(Driver::FmtFailing), Just(Driver::Write), Just(Driver::WriteAll)].boxed()
+                    prop_oneof![Just(Driver::Fmt), Just(Driver::FmtLiteral), Just(Driver::FmtFailing), Just(Driver::FmtSloppy), Just(Driver::Write), Just(Driver::WriteAll)].boxed()
                 } else {
                     prop_oneof![Just(Driver::Write), Just(Driver::Vectored), Just(Driver::WriteAll)].boxed()
                 },
@@ -367,7 +388,7 @@ fn run(args: &Args, rep: &mut Report) {
                 .prop_map(|(items, script, driver, via_auto, param)| {
                     let bytes = gen::render(&items);
                     // the write! drivers need text; never let a generator slip become an alarm
-                    let driver = if matches!(driver, Driver::Fmt | Driver::FmtLiteral | Driver::FmtFailing) && std::str::from_utf8(&bytes).is_err() { Driver::WriteAll } else { driver };
+                    let driver = if matches!(driver, Driver::Fmt | Driver::FmtLiteral | Driver::FmtFailing | Driver::FmtSloppy) && std::str::from_utf8(&bytes).is_err() { Driver::WriteAll } else { driver };
                     (bytes.clone(), Hist { hex: rt::hex(&bytes), script, driver, via_auto, param })
                 })
         }
